@@ -61,6 +61,8 @@ class FreeClient(Client):
         if n.get('k') == 'call':
             sn = A.cshort(n)
             on_this = n.get('obj') is None or A.root(n['obj'], self.linit)[0] == 'this'
+            if on_this and n.get('amc') and n.get('fn') is not None and getattr(self, 'calls', None) is not None:
+                self.calls.setdefault(n['fn'], []).append(s)       # the state a private helper is entered with
             if sn in ('freeStorage', 'destroyFreeStorage') and on_this:
                 return [('n', (s - {'heap'}) | {'freed'})]
             if sn == 'deallocate' and n.get('args') and is_this_storage(n['args'][0], self.linit):
@@ -108,6 +110,18 @@ def free_all(progs):
                                 'released on that path, or when the block is handed to reallocate; destructors and destroyFreeStorage release on '
                                 'every path on which the heap-state predicate holds')
     for prog in progs:
+        # states with which the (non public) members of the bases are entered from their callers: a helper extracted from
+        # move_assign that overwrites the pointer is fine if every caller released the block (or never owned one) before calling it
+        entered = {}
+        for f in prog.amc_functions():
+            if f.get('body') is None or f.get('clsq') not in BASES:
+                continue
+            exempt = f.get('kind') == 'ctor' or short(f['name']) in EXEMPT_OVERWRITE
+            cl0 = FreeClient(f, A.local_inits(f['body']), lambda *a: None)
+            cl0.calls = {}
+            Engine(cl0).run(f['body'], frozenset({'noheap'}) if exempt else frozenset(), f.get('inits'))
+            for fid, sts in cl0.calls.items():
+                entered.setdefault(fid, []).extend(sts)
         for f in prog.amc_functions():
             if f.get('body') is None or f.get('clsq') not in BASES:
                 continue
@@ -123,7 +137,10 @@ def free_all(progs):
                 v[1] = v[1] and ok
             cl = FreeClient(f, linit, report)
             o = Engine(cl).run(body, frozenset(), f.get('inits'))
+            ctx = entered.get(f['id'])
+            safe_ctx = f.get('access') != 'public' and bool(ctx) and all(('freed' in st or 'noheap' in st) for st in ctx)
             for n, ok in sites.values():
+                ok = ok or safe_ctx
                 rr.instance('%s|overwrite|%s' % (f['key'], rel(prog.site(f, n))), {'function': f['pname'][:140], 'site': rel(prog.site(f, n)), 'ok': ok})
                 if not ok:
                     rr.add(Finding('FREE-ALL', '%s|overwrite' % f['key'], prog.site(f, n),
